@@ -867,5 +867,6 @@ def execute(sc):
     nontrivial = bool(probes.get("accepted_forwarded") or probes.get("socks_accepted") or probes.get("tunnel_inner_forwarded")) \
         and bool(probes.get("rejected_challenged") or probes.get("socks_rejected"))
     states = {f"{family_of(sc['modes'][0])}:{rec['kind']}:{rec['level']}:{rec['status'] or rec['err'] or rec.get('auth')}" for rec in recs}
-    return {"violations": v, "digest": W.digest(ev), "nontrivial": nontrivial, "faults": dict(w.net.faults_fired),
+    # no faults are injected for this property (input/configuration-dominated); peers closing normally is not a fault
+    return {"violations": v, "digest": W.digest(ev), "nontrivial": nontrivial, "faults": {},
             "probes": probes, "sim_s": sim_s or 0.0, "states": states}
